@@ -10,9 +10,13 @@ PY = "/venv/bin/python"
 CLAIMED = {
     "C01": ("§6 C01", "seeded programs x both backends x forced-0/forced-1/every leaf of the measurement-outcome tree (outcome RNG owned by the simulator), judged against an independent state-vector reference that follows the executed operation order and the outcomes handed out; classical record compared after every operation."),
     "C07": ("§6 C07", "seeded histories over the whole tableau API (three API surfaces, n up to 200) with scripted measurement outcomes, lock-step against an independent bit-row stabilizer reference; binary/symplectic/state/outcome invariants after every call; hidden-outcome calls judged against the set of legal branches."),
+    "C02": ("§6 C02", "TimeReversedSolver run on seeded labelled targets (families incl. disconnected ones, three presentations, both compilers); the returned circuit is executed on every leaf of its measurement-outcome tree by three judges (independent textbook semantics, stabilizer backend, density-matrix backend) and must end in |G> x |0..0>; the reported score must be 0."),
+    "C04": ("§6 C04", "seeded histories of the evolutionary/hybrid mutation moves from solver-made circuits, with every RNG draw of the moves owned by the simulator (extreme-but-legal answers injected); emission-structure invariants I1-I5 after every move."),
+    "C13": ("§6 C13", "seeded user sessions over one pool of shared circuits/targets: interleavings of copy / rewrites / noisy copies / Monte-Carlo noise / compile / metric / solver calls with deliberate object re-use; observational fingerprints of every pool object compared before/after every call."),
+    "C19": ("§6 C19", "each seeded solver configuration executed twice in-process under different RNG pollution before seed() and in two further interpreters with other PYTHONHASHSEED values; hall-of-fame digests must agree; per-generation hall-of-fame snapshots checked for order, honesty of stored scores, result = best, and monotone best score."),
     "C12": ("§6 C12", "seeded edit histories over the CircuitDAG API in lock-step with a per-wire reference model; acyclicity, sources/sinks, wire paths, index consistency, topological sequence and register counts after every edit."),
 }
-PENDING = {k: "simulation check not finished yet (planned, DESIGN §6); not claimed until its check runs clean" for k in ["C02", "C04", "C10", "C13", "C16", "C19"]}
+PENDING = {k: "simulation check not finished yet (planned, DESIGN §6); not claimed until its check runs clean" for k in ["C10", "C16"]}
 NA = {
     "C03": "pure function of one tableau / one target graph: no random draw, call history, shared mutable state, schedule or fault in the statement; deciding it needs input enumeration or proof, not simulation (DESIGN §3)",
     "C05": "pure function of two tableaux (inputs are copied before use); no nondeterminism, history or fault dimension (DESIGN §3)",
